@@ -6,6 +6,7 @@ import (
 	"os"
 	"testing"
 
+	"github.com/youchainhq/go-youchain/logging"
 	"verif/kit"
 	sc "verif/lib/stakechain"
 )
@@ -27,6 +28,14 @@ func TestDebug(t *testing.T) {
 	var c Case
 	if err := json.Unmarshal(rf.Case, &c); err != nil {
 		t.Fatal(err)
+	}
+	if os.Getenv("VERIF_DEBUG_LOG") != "" {
+		logging.Root().SetHandler(logging.FuncHandler(func(r *logging.Record) error {
+			if r.Lvl <= logging.LvlError {
+				fmt.Println("    LOG", r.Msg, r.Ctx)
+			}
+			return nil
+		}))
 	}
 	net, err := sc.NewNet(c.Cfg, c.Gen)
 	if err != nil {
